@@ -60,3 +60,37 @@ Theorem C09_power_failure_during_next_open :
     ceq (cont (s_disk s3)) (cont (s_disk s)).
 Proof. exact C09_power_loss_during_reopen. Qed.
 Print Assumptions C09_power_failure_during_next_open.
+
+(* ---- PowerLoss2.v: after a history of ANY number of epochs (process crashes, recoveries, Close /
+   reopen), a completed Close makes every admissible power-loss image the closed directory: the next
+   Open is a clean one (no recovery) with exactly the closed contents *)
+From Pogreb Require Import PowerLoss2.
+Theorem C09_closed_is_durable_after_any_epochs :
+  forall P seed cf0 mh K (s : st) c (m : mem) s1 o L' img',
+  params_ok P -> XOpen P cf0 -> mrun P cf0 mh K (s, c) -> s_mem s = Some m ->
+  db_close flat_ops (clear_trace s) = (s1, o) ->
+  plh fnone (s_disk (fst cf0)) (K ++ [CE (s_trace s1)]) L' img' ->
+  img' = set_orphans (s_disk s1) (d_orphans img') /\ d_lock img' = false /\
+  exists s2, db_open flat_ops P seed (closed img') = (s2, OOpened false) /\ Inv P s2 /\ s_mem s2 <> None /\
+    ceq (cont (s_disk s2)) (cont (s_disk s)).
+Proof. exact C09_reopen_epochs. Qed.
+Print Assumptions C09_closed_is_durable_after_any_epochs.
+
+(* the power fails DURING Close (after any prefix es1 of its events): the next Open succeeds -- through
+   recovery as long as the lock file exists, whatever became of db.pmt, index.pmt, the side files or
+   main.pix -- with the contents of the last sync point followed by a prefix of the later operations;
+   after the complete Close the Open is clean and the contents are exactly the closed ones *)
+Theorem C09_power_loss_in_the_middle_of_close :
+  forall P seed cf0 os0 cfs0 tr0 cfa osync cf1 os cfs tr (s : st) c s1 o es1 es2 L' img',
+  params_ok P -> XOpen P cf0 ->
+  xrun P cf0 os0 cfs0 tr0 cfa -> xstep P cfa osync cf1 -> sync_point P osync ->
+  xrun P cf1 os cfs tr (s, c) ->
+  db_close flat_ops (clear_trace s) = (s1, o) -> s_trace s1 = es1 ++ es2 ->
+  pl fnone (s_disk (fst cf0)) (tr0 ++ s_trace (fst cf1) ++ tr ++ es1) L' img' ->
+  exists s2 b, db_open flat_ops P seed (closed img') = (s2, OOpened b) /\ Inv P s2 /\ s_mem s2 <> None /\
+    (exists j, (j <= length os)%nat /\
+       ceq (cont (s_disk s2)) (xspec_hist (firstn j os) (cont (s_disk (fst cf1))))) /\
+    (es2 <> [] -> b = true) /\
+    (es2 = [] -> b = false /\ ceq (cont (s_disk s2)) (cont (s_disk s))).
+Proof. exact C09_power_loss_during_close. Qed.
+Print Assumptions C09_power_loss_in_the_middle_of_close.
